@@ -219,6 +219,20 @@ def other_kinds(rep, rng, x, X, quick):
             pos = v0 > 1e-10 * max(1.0, v0.max())
             if np.max(np.abs(v[pos] - 1.0), initial=0) > 1e-6:
                 bad.append("standardised basis data do not have unit pointwise variance")
+        sb2 = fresh().standardize(center=False)          # the coefficients were given a non-zero mean (+ 2.0)
+        gs2 = np.asarray(sb2.to_grid().values)
+        if not np.all(np.isfinite(gs2)):
+            bad.append("standardised (center=False) basis data are not finite")
+        else:
+            v2 = gs2.var(axis=0)
+            pos = v0 > 1e-10 * max(1.0, v0.max())
+            if np.max(np.abs(v2[pos] - 1.0), initial=0) > 1e-6:
+                bad.append(f"standardised (center=False) basis data do not have unit pointwise variance (max deviation "
+                           f"{np.max(np.abs(v2[pos] - 1.0)):.3g})")
+        for kw in ({"method_integration": "simpson"}, {"use_argvals_stand": True}):
+            nb2 = fresh().normalize(**kw)
+            if np.max(np.abs(np.asarray(nb2.norm(**kw)) - 1.0)) > 1e-8:
+                bad.append(f"normalised basis data ({kw}) do not have unit norm under the same options")
         rb, w = fresh().rescale()
         _, w2 = rb.rescale()
         if abs(w2 - 1.0) > 1e-8:
